@@ -301,6 +301,10 @@ def case_step(props):
         try:
             r = eng.call_function(BiddingPhase.take_bid, [obj, SEnum(Bid, call)], {})
         except symx.RaiseEx as e:
+            if isinstance(e.exc, AttributeError) and PFX in str(e.exc):
+                # the implementation keeps state in a field that the invariant of this harness does not describe: the
+                # inductive step cannot quantify over it.  Not a verdict: the BMC from the real constructor still decides.
+                return dict(outcome='H1 not applicable', checks=[], sample=f'unknown state field: {e.exc}')
             return dict(outcome='raise', refine=refine,
                         checks=[(f'{p}: take_bid does not raise in a live auction ({type(e.exc).__name__})', False)
                                 for p in sorted(props)])
